@@ -94,8 +94,9 @@ impl JoinSet<()> {
 pub struct Notified { pub ok_peer: Option<PeerId>, pub conns: Map<PeerId, Connection> }
 pub mod oneshot {
     use super::*;
-    pub struct Sender<T> { pub sent: Ghost<Option<T>> }
-    pub struct Receiver<T> { pub x: Ghost<Option<T>> }
+    pub struct Sender<T> { pub sent: Ghost<Option<T>>, pub ch: Ghost<int> }
+    pub struct Receiver<T> { pub x: Ghost<Option<T>>, pub ch: Ghost<int> }
+    pub struct RecvError;
     impl<T> Sender<T> {
         #[verifier::external_body] pub fn send(self, v: T) -> (r: core::result::Result<(), T>) { unimplemented!() }
     }
@@ -109,7 +110,12 @@ pub mod oneshot {
                     !old(self).closed() && old(self).x@ is Some ==> r == Ok::<T, error::TryRecvError>(old(self).x@->Some_0),
                     !old(self).closed() && old(self).x@ is None ==> r == Err::<T, error::TryRecvError>(error::TryRecvError::Empty) { unimplemented!() }
     }
-    #[verifier::external_body] pub fn channel<T>() -> (r: (Sender<T>, Receiver<T>)) { unimplemented!() }
+    // the two ends of one channel carry the same (ghost) channel id
+    #[verifier::external_body] pub fn channel<T>() -> (r: (Sender<T>, Receiver<T>)) ensures r.0.ch@ == r.1.ch@ { unimplemented!() }
+    impl<T> Receiver<T> {
+        // `receiver.await` (rendered `receiver.resolved().await`, rule X5): the value the holder of the sending end sent, or an error if it dropped it unsent
+        #[verifier::external_body] pub async fn resolved(self) -> (r: core::result::Result<T, RecvError>) ensures r is Ok ==> self.x@ == Some(r->Ok_0) { unimplemented!() }
+    }
 }
 '''
 
